@@ -30,7 +30,7 @@ PROPS = {
         ("tsan", dict(runner="racefam", thorough_only=True)),
     ]),
     "C03": dict(level="exploration", lanes=[("hlmon", dict(runner="seqfam")), ("hlmon", dict(runner="blockfam")), ("hlmon", dict(runner="tuplefam")), ("hlmon", dict(runner="faultfam")), ("hlmon", dict(runner="conc_fault")), CONC, ("hlmon", dict(runner="tryfam")), ("hlmon", dict(runner="panicfam")), ("hlmon", dict(runner="poisonfam")), ("hlmon", dict(runner="keyfam"))]),
-    "C04": dict(level="exploration", lanes=[("hlmon", dict(runner="tryfam")), ("hlmon", dict(runner="blockfam")), ("hlmon", dict(runner="tuplefam")), ("hlmon", dict(runner="poisonfam")), CONC, ("hlmon", dict(runner="seqfam")), ("hlmon", dict(runner="orderfam")), ("hlmon", dict(runner="dupfam")), ("hlmon", dict(runner="panicfam"))]),
+    "C04": dict(level="exploration", lanes=[("hlmon", dict(runner="tryfam")), ("hlmon", dict(runner="blockfam")), ("hlmon", dict(runner="tuplefam")), ("hlmon", dict(runner="poisonfam")), CONC, ("hlmon", dict(runner="seqfam")), ("hlmon", dict(runner="orderfam")), ("hlmon", dict(runner="dupfam")), ("hlmon", dict(runner="panicfam")), ("hlmon", dict(runner="faultfam"))]),
     "C05": dict(level="exploration", lanes=[CONC, ("hlmon", dict(runner="seqfam")), ("hlmon", dict(runner="tryfam")), ("hlmon", dict(runner="blockfam")), ("hlmon", dict(runner="tuplefam")), ("hlmon", dict(runner="conc_panic")), ("hlmon", dict(runner="faultfam")), ("hlmon", dict(runner="conc_fault")), ("hlmon", dict(runner="panicfam")), ("hlmon", dict(runner="poisonfam")), ("hlmon", dict(runner="nonacqfam")), ("hlmon", dict(runner="orderfam"))]),
     "C06": dict(level="exploration", lanes=[("hlmon", dict(runner="keyfam")), ("hlmon", dict(runner="seqfam")), ("hlmon", dict(runner="blockfam")), ("hlmon", dict(runner="conc"))]),
     "C07": dict(level="exploration", lanes=[("hlmon", dict(runner="dupfam")), ("corpus", dict()), ("matrix", dict())]),
